@@ -7,6 +7,8 @@ Decides:
        reader per archive kind, one distinct reader per archive kind; every reader that drops earlier
        blocks while decoding is marked streamed by is_streamed_file for every file type.
   R5.3 evtx/journal readers open the temporary extraction when there is one, the original otherwise.
+  R5.4 the accounting-record reader, which revisits earlier offsets (time order), disables block
+       dropping on streamed files before its full scan.
 Does not decide: equality of decoded bytes for every compressor parameter (decoder crates trusted),
 tar member lookup, window behaviour on streamed files (C03).
 """
@@ -54,6 +56,28 @@ def forward_taint(body, seeds):
                         changed = True
                         break
     return t
+
+
+def raw_copies(body, seeds):
+    """locals that hold exactly the seed value (copies and integer casts only, no arithmetic)"""
+    t = set(seeds)
+    changed = True
+    while changed:
+        changed = False
+        for bb in body.live:
+            for s in body.stmts(bb):
+                if s[0] == "=" and len(s[1]) == 1 and s[1][0] not in t:
+                    rv = s[2]
+                    o = rv[1] if rv[0] == "use" else (rv[2] if rv[0] == "cast" else None)
+                    if o is not None and o[0] in ("cp", "mv") and len(o[1]) == 1 and o[1][0] in t:
+                        t.add(s[1][0])
+                        changed = True
+    return t
+
+
+def _root_is_payload(body, root, call):
+    """decision root denotes the Ok payload of `call`"""
+    return root[0] == "call" and root[2] == call.bb and "as Ok" in root
 
 
 def ok_payload_locals(body, call):
@@ -243,6 +267,112 @@ def run(prog, rep, tier):
                     b.path, selfty, c.line, sorted(set(x.d.split("::")[-1] for x in consumers))))
     rep.floor(R51, 6, "(decoder read sites of blockreader and filedecompressor)")
 
+    # ------------------------------------------------------------ R5.1b / R5.1c: read loops
+    R51b = rep.rule("R5.1b", "a read loop ends only on a zero count, an error, or a filled request - never on a short count")
+    R51c = rep.rule("R5.1c", "a read loop cannot go round again after a zero count")
+    for b in prog.bodies():
+        if not b.path.startswith("s4lib::"):
+            continue
+        idx = 0
+        for c in b.live_calls():
+            if c.o != "std::io::Read::read":
+                continue
+            selfty = c.callee.get("self") or "?"
+            key = "%s|read#%d<%s>" % (b.path, idx, selfty.split("<")[0].split("::")[-1])
+            idx += 1
+            loops = [(h, b.loop_blocks(h)) for (t_, h) in b.back_edges() if c.bb in b.loop_blocks(h)]
+            if not loops:
+                continue
+            h, L = min(loops, key=lambda x: len(x[1]))
+            pay = ok_payload_locals(b, c)
+            raw = raw_copies(b, pay)
+            # --- R5.1b
+            bad = []
+            for bb in sorted(L):
+                t = b.term(bb)
+                if t[0] != "switch":
+                    continue
+                at = decide.bool_atom(b, t[1])
+                if not at or at[0] != "cmp":
+                    continue
+                l = op_local(t[1])
+                ds = b.defs.get(l, [])
+                ops = []
+                for d in ds:
+                    if d[1] != "call" and d[2][0] == "bin":
+                        ops = [d[2][2], d[2][3]]
+                    elif d[1] == "call":
+                        ops = list(d[2].args[:2])
+                involved = [o for o in ops if o[0] in ("cp", "mv") and o[1][0] in raw]
+                if not involved:
+                    continue
+                other = [o for o in ops if o not in involved]
+                zero = any(o[0] == "k" and o[2] == 0 for o in other)
+                if zero:
+                    continue
+                for s_ in b.succ[bb]:
+                    if s_ in L:
+                        continue
+                    # leaving the loop on a comparison of the raw count with something other than 0
+                    outs = set()
+                    try:
+                        for p_ in decide.enumerate_paths(b, s_, lambda x: "ret" if b.term(x)[0] == "ret" else None, opaque_ok=lambda x: True, max_paths=3000):
+                            if p_.end == "ret":
+                                outs.add(decide.returned_variant(b, decide.Path((bb,) + p_.blocks, p_.decisions, p_.end)))
+                    except CheckerError:
+                        outs.add("?")
+                    if not outs <= {"Err"}:
+                        bad.append((bb, at[1], b.blocks[bb].get("l")))
+            rep.examined(R51b, key, sample={"site": b.path, "line": c.line, "loop_header": h, "short_count_exits": bad})
+            if bad:
+                rep.violation(R51b, key, "%s: the loop around %s::read (line %d) is left when the returned count is %s something other than 0 (line %s); Read::read may return a short non-zero count before the end of the stream, so the rest of the data is silently dropped" % (
+                    b.path, selfty.split("<")[0], c.line, bad[0][1], bad[0][2]))
+            # --- R5.1c
+            if c.target is None:
+                continue
+            t = b.term(c.target)
+            ok_t = None
+            if t[0] == "switch":
+                ok_t = {int(v): tb for v, tb in t[2]}.get(0)
+            if ok_t is None:
+                continue
+            spins = []
+
+            def end_of(x):
+                if x == h:
+                    return "back"
+                if x not in L:
+                    return "exit"
+                return None
+            try:
+                paths = decide.enumerate_paths(b, ok_t, end_of, opaque_ok=lambda x: True, max_paths=20000)
+            except CheckerError as e:
+                raise CheckerError("%s: read loop too complex for the zero-progress rule (%s)" % (b.path, e))
+            for p_ in paths:
+                if p_.end != "back":
+                    continue
+                nonzero = False
+                for d in p_.decisions:
+                    if d[0] != "cmp":
+                        continue
+                    _, op, x, y, outcome = d
+                    xs, ys = str(x), str(y)
+                    is_x = x[0] == "call" and x[1] == "read" or (x[0] == "local" and x[1] in raw) or _root_is_payload(b, x, c)
+                    is_y = y[0] == "const" and y[1] == "0"
+                    if _root_is_payload(b, x, c) and is_y:
+                        # count OP 0
+                        if (op == "eq" and outcome is False) or (op == "ne" and outcome is True) or (op == "gt" and outcome is True) or (op == "le" and outcome is False):
+                            nonzero = True
+                    if _root_is_payload(b, y, c) and x[0] == "const" and x[1] == "0":
+                        if (op == "eq" and outcome is False) or (op == "ne" and outcome is True) or (op == "lt" and outcome is True) or (op == "ge" and outcome is False):
+                            nonzero = True
+                if not nonzero:
+                    spins.append(p_.blocks[-6:])
+            rep.examined(R51c, key, sample={"site": b.path, "line": c.line, "paths_round_the_loop": len([p_ for p_ in paths if p_.end == "back"]), "without_nonzero_count": len(spins)})
+            if spins:
+                rep.violation(R51c, key, "%s: after %s::read (line %d) returns 0 bytes the loop can go round again without making progress (blocks %s); on a stream that ends early (multi-member or junk-trailed input) this spins forever" % (
+                    b.path, selfty.split("<")[0], c.line, spins[0]))
+
     # ------------------------------------------------------------ R5.2
     rb = prog.body(BR + "::read_block")
     ftv = {v["idx"]: v["name"] for v in facts.adts[FT]["variants"]}
@@ -314,6 +444,44 @@ def run(prog, rep, tier):
                 rep.violation(R52, inst, "%s: %s drops earlier blocks while decoding but is_streamed_file() is %s for %s/%s; the backward-jumping binary search would then meet dropped blocks" % (
                     sf.path, r, sorted(labs or []), ft, a))
     rep.floor(R52, 12)
+
+    # ------------------------------------------------------------ R5.5
+    R55 = rep.rule("R5.5", "tar members are named through tar::Entry::path everywhere (GNU long names / pax aware)")
+    for bd in prog.bodies():
+        if not bd.path.startswith("s4lib::"):
+            continue
+        ents = [c for c in bd.live_calls() if c.d.startswith("tar::Archive") and "entries" in c.d.split("::")[-1]]
+        if not ents:
+            continue
+        epath = [c for c in bd.live_calls() if c.d.startswith("tar::Entry") and c.d.split("::")[-1] in ("path", "path_bytes")]
+        hpath = [c for c in bd.live_calls() if c.d.startswith("tar::Header") and c.d.split("::")[-1] in ("path", "path_bytes", "path_lossy")]
+        rep.examined(R55, bd.path, sample={"fn": bd.path, "Entry::path": len(epath), "Header::path": len(hpath)})
+        if hpath:
+            rep.violation(R55, bd.path, "%s: a tar member is named by the raw header field (tar::Header::path, line %d) while the member list is built from tar::Entry::path; for GNU long-name or pax archives the two differ and the member is never found" % (bd.path, hpath[0].line))
+    rep.floor(R55, 3)
+
+    # ------------------------------------------------------------ R5.4
+    R54 = rep.rule("R5.4", "readers that revisit earlier offsets keep all blocks of a streamed file")
+    fr = prog.body("s4lib::readers::fixedstructreader::FixedStructReader::new")
+    pre = [c for c in fr.live_calls() if c.d.endswith("FixedStructReader::preprocess_timevalues")]
+    dis = [c for c in fr.live_calls() if c.d.endswith("BlockReader::disable_drop_data")]
+    stc = [c for c in fr.live_calls() if c.d.endswith("BlockReader::is_streamed_file")]
+    if len(pre) != 1:
+        raise CheckerError("FixedStructReader::new: %d preprocess_timevalues calls" % len(pre))
+    ok = False
+    for c in stc:
+        if c.target is None:
+            continue
+        t = fr.term(c.target)
+        if t[0] == "switch" and op_local(t[1]) == c.dest[0]:
+            arms = {int(v): tb for v, tb in t[2]}
+            true_t = t[3] if 0 in arms else arms.get(1)
+            if true_t is not None and dis and pre[0].bb not in fr.reachable(true_t, set(d.bb for d in dis)) and fr.dominates(c.bb, pre[0].bb):
+                ok = True
+    # the entry walk is in time order (C08 R8.2): that is what makes earlier blocks needed again
+    rep.examined(R54, fr.path + "|keep-blocks", sample={"is_streamed_tests": len(stc), "disable_drop_data_calls": len(dis), "all_blocks_kept_when_streamed": ok})
+    if not ok:
+        rep.violation(R54, fr.path + "|keep-blocks", "FixedStructReader::new: records are visited in time order after a full forward scan, but for a streamed (compressed) file the blocks dropped during that scan cannot be read again; dropping is not disabled when is_streamed_file() (a multi-block .gz/.bz2/.lz4 accounting file then prints only the records of its last block)")
 
     # ------------------------------------------------------------ R5.3
     sites = [("s4lib::readers::evtxreader::EvtxReader::new", ("OpenOptions::open", "from_path")),
